@@ -24,8 +24,8 @@ META = {
             "every recorded per-process trace is validated by TLC against the same specification (values read, run-once, "
             "placement, causal order, final contents, termination of every process).",
     "note": "One parameterised program family (broadcast fan-out, strided second producer, two-input gather, cross-process "
-            "pipeline), each task has at most one output flow with remote consumers (two flows with different remote "
-            "destination sets is the known finding of C13 and is explored there); sizes np<=4, w1<=4; sampled configurations, "
+            "pipeline; P has two output flows with IDENTICAL remote destination sets = two payloads per activation; two flows "
+            "with DIFFERENT remote destination sets is the known finding of C13 and is explored there); sizes np<=4, w1<=4; sampled configurations, "
             "seeded. Trusted: TLC, Open MPI, the test-owned bodies and per-process stamp order.",
     "technique": "TLA+ confluence check (TLC) + trace validation of real multi-process runs with per-process cursors",
 }
@@ -102,7 +102,7 @@ def run(ctx):
                       "see replay for the per-process traces" % (json.dumps(l["cfg"]), json.dumps(l["run"])),
                       {"line": {"cfg": l["cfg"], "ranks": l["ranks"]}, "run": l["run"]})
     ctx.assume("per-process event order = stamp order of one atomic counter per process; no cross-process clock is used")
-    ctx.assume("each task has at most one output flow with remote consumers (see C13 known finding for the other case)")
+    ctx.assume("output flows of one task have identical remote destination sets (different sets: see the C13 known finding)")
 
 
 def validate_lines(ctx, execs):
